@@ -914,3 +914,215 @@ Proof.
     split; [apply (tr_In r); rewrite E; cbn [In]; auto 6|].
     rewrite <- counts_tr, E. count_shape.
 Qed.
+
+(* ================================================================== *)
+(* C02_debit_exact: what one run of the new-batch handler charges      *)
+(* ================================================================== *)
+
+Definition issue_fee (e : Event) : Z := match e with EvIssue _ _ _ f => f | _ => 0 end.
+(* the sum of the fees of the EvIssue events of a list *)
+Definition issue_fees (d : list Event) : Z := fold_right (fun e a => issue_fee e + a) 0 d.
+Definition is_debit (e : Event) : bool := match e with EvDebit _ _ _ => true | _ => false end.
+Definition is_any_issue (e : Event) : bool := match e with EvIssue _ _ _ _ => true | _ => false end.
+Definition plain (e : Event) : Prop := is_debit e = false /\ is_any_issue e = false.
+
+Lemma issue_fees_cons e d : issue_fees (e :: d) = issue_fee e + issue_fees d.
+Proof. reflexivity. Qed.
+
+Lemma issue_fees_app d1 d2 : issue_fees (d1 ++ d2) = issue_fees d1 + issue_fees d2.
+Proof.
+  induction d1 as [|e d IH]; [reflexivity|].
+  cbn [app]. rewrite !issue_fees_cons, IH. lia.
+Qed.
+
+Lemma plain_list d : Forall plain d ->
+  issue_fees d = 0 /\ count is_debit d = 0%nat /\ count is_any_issue d = 0%nat.
+Proof.
+  induction 1 as [|e d (H1 & H2) Hd (I1 & I2 & I3)]; [repeat split|].
+  rewrite !count_cons, H1, H2, I2, I3, issue_fees_cons, I1.
+  destruct e; cbn in *; try discriminate; auto.
+Qed.
+
+(* the EvIssue events of issue_all, newest first *)
+Fixpoint issue_evs (s : State) (c : CtxId) (rc : Ctx) (n i : Z) (provs : list Z) : list Event :=
+  match provs with
+  | [] => []
+  | p :: t => issue_evs s c rc n (i + 1) t ++ [EvIssue (c, n, height s, i) p (c_cons rc) (fee_of s rc p)]
+  end.
+
+Lemma fee_of_stable s s1 rc p :
+  time s1 = time s -> pricing s1 = pricing s -> vols s1 = vols s -> fee_of s1 rc p = fee_of s rc p.
+Proof. intros H2 H3 H4. unfold fee_of, pricing_of, vol_of. now rewrite H2, H3, H4. Qed.
+
+Lemma issue_evs_stable s s1 c rc n i provs :
+  height s1 = height s -> time s1 = time s -> pricing s1 = pricing s -> vols s1 = vols s ->
+  issue_evs s1 c rc n i provs = issue_evs s c rc n i provs.
+Proof.
+  intros H1 H2 H3 H4. revert i. induction provs as [|p t IH]; intros i; cbn [issue_evs]; [reflexivity|].
+  now rewrite IH, H1, (fee_of_stable s s1) by assumption.
+Qed.
+
+Lemma issue_all_log s c rc n i provs :
+  log (issue_all s c rc n i provs) = issue_evs s c rc n i provs ++ log s.
+Proof.
+  revert s i. induction provs as [|p t IH]; intros s i; cbn [issue_all issue_evs]; [reflexivity|].
+  rewrite IH. rewrite (issue_evs_stable s (issue_one s c rc n i p)) by reflexivity.
+  rewrite <- app_assoc. reflexivity.
+Qed.
+
+Lemma issue_evs_fees s c rc n i provs :
+  issue_fees (issue_evs s c rc n i provs) = fold_right (fun p a => fee_of s rc p + a) 0 provs.
+Proof.
+  revert i. induction provs as [|p t IH]; intros i; cbn [issue_evs fold_right]; [reflexivity|].
+  rewrite issue_fees_app, IH, issue_fees_cons. cbn [issue_fee issue_fees fold_right]. lia.
+Qed.
+
+Lemma issue_evs_counts s c rc n i provs :
+  count is_debit (issue_evs s c rc n i provs) = 0%nat
+  /\ count is_any_issue (issue_evs s c rc n i provs) = length provs.
+Proof.
+  revert i. induction provs as [|p t IH]; intros i; cbn [issue_evs length]; [split; reflexivity|].
+  destruct (IH (i + 1)) as (I1 & I2). rewrite !count_app, I1, I2. cbn. split; lia.
+Qed.
+
+Lemma In_issue_evs s c rc n i provs e : In e (issue_evs s c rc n i provs) ->
+  exists j p, e = EvIssue (c, n, height s, j) p (c_cons rc) (fee_of s rc p) /\ i <= j /\ In p provs.
+Proof.
+  revert i. induction provs as [|p t IH]; intros i Hin; cbn [issue_evs] in Hin; [destruct Hin|].
+  apply in_app_or in Hin. destruct Hin as [Hin|[<-|[]]].
+  - destruct (IH _ Hin) as (j & p' & E & Hj & Hp). exists j, p'. split; [exact E|]. split; [lia|now right].
+  - exists i, p. split; [reflexivity|]. split; [lia|now left].
+Qed.
+
+Lemma fee_sum_prices s rc :
+  fold_right (fun p a => fee_of s rc p + a) 0 (map fst (filter_providers s rc (c_provs rc)))
+  = if c_super rc then 0 else sum_prices (filter_providers s rc (c_provs rc)).
+Proof.
+  rewrite filter_providers_sum, fold_exch_eq_price.
+  induction (map fst (filter_providers s rc (c_provs rc))) as [|p t IH]; cbn [fold_right].
+  - now destruct (c_super rc).
+  - rewrite IH. unfold fee_of. destruct (c_super rc); lia.
+Qed.
+
+(* the log and bank effect of new_one: either nothing is issued or charged, or one batch is
+   issued, paid for (unless super mode) by one debit of the sum of the provider prices *)
+Lemma new_one_log cfg s c rc : get c (ctxs s) = Some rc ->
+  let el := filter_providers s rc (c_provs rc) in
+  let n := c_counter rc + 1 in
+  (ext plain (log s) (log (new_one cfg s c)) /\ bank (new_one cfg s c) = bank s)
+  \/ (0 < len el
+      /\ exists sp,
+           ((c_super rc = true /\ sp = s)
+            \/ (c_super rc = false /\ exists x,
+                  transfer (User (c_cons rc)) Escrow (sum_prices el) s = Some x
+                  /\ sp = emit (EvDebit c (c_cons rc) (sum_prices el)) x))
+           /\ log (new_one cfg s c)
+              = EvBatchStart c n (height s) (len (map fst el)) :: issue_evs sp c rc n 0 (map fst el) ++ log sp
+           /\ bank (new_one cfg s c) = bank sp).
+Proof.
+  intros Grc. cbv zeta. unfold new_one, ctx_or_zero. rewrite Grc.
+  destruct (is_state rc Running && c_rep rc && (0 <? c_total rc) && (c_total rc <=? c_counter rc)).
+  { left. split; [ext_auto|reflexivity]. }
+  destruct (is_state rc Running); [|left; split; [ext_auto|reflexivity]].
+  set (el := filter_providers s rc (c_provs rc)).
+  destruct ((0 <? len el) && (c_thr rc <=? len el)) eqn:Ecnt.
+  2:{ left. unfold skip_batch. split; [ext_auto|reflexivity]. }
+  apply andb_prop in Ecnt. destruct Ecnt as (Epos & _). apply Z.ltb_lt in Epos.
+  assert (Hinit : forall sp, ctxs sp = ctxs s -> height sp = height s ->
+     log (del_newq (add_expq (initiate_requests sp c (map fst el)) c (height s + c_timeout rc)) c (height s))
+     = EvBatchStart c (c_counter rc + 1) (height s) (len (map fst el))
+         :: issue_evs sp c rc (c_counter rc + 1) 0 (map fst el) ++ log sp
+     /\ bank (del_newq (add_expq (initiate_requests sp c (map fst el)) c (height s + c_timeout rc)) c (height s))
+        = bank sp).
+  { intros sp Ec Eh. unfold initiate_requests, ctx_or_zero. rewrite Ec, Grc. sproj.
+    rewrite issue_all_log, Eh. split; [reflexivity|].
+    pose proof (issue_all_frame sp c rc (c_counter rc + 1) 0 (map fst el)) as F. unfold same_but_reqs in F.
+    destruct F as (_ & _ & _ & _ & _ & _ & _ & _ & _ & _ & _ & _ & _ & _ & _ & _ & _ & _ & F19 & _). exact F19. }
+  destruct (c_super rc) eqn:Es.
+  - right. split; [exact Epos|]. exists s. split; [now left|]. apply Hinit; reflexivity.
+  - destruct (transfer (User (c_cons rc)) Escrow (sum_prices el) s) as [x|] eqn:Et.
+    + right. split; [exact Epos|]. eexists. split; [right; split; [reflexivity|eauto]|].
+      pose proof (transfer_frame _ _ _ _ _ Et) as Hf.
+      apply Hinit; sproj; now rewrite Hf.
+    + left. unfold on_paused. destruct (c_mod rc =? 0); (split; [ext_auto|reflexivity]).
+Qed.
+
+Theorem debit_exact cfg s c : Inv cfg s -> In (height s, c) (newq s) ->
+  exists rc d, get c (ctxs s) = Some rc /\ log (new_one cfg s c) = d ++ log s
+    (* every request issued belongs to the next batch of c and is charged to its consumer *)
+    /\ (forall r p cons f, In (EvIssue r p cons f) d ->
+          rid_ctx r = c /\ rid_batch r = c_counter rc + 1 /\ cons = c_cons rc)
+    (* a debit is the debit of c's consumer for exactly the fees issued, not in super mode *)
+    /\ (forall c' cons amt, In (EvDebit c' cons amt) d ->
+          c' = c /\ cons = c_cons rc /\ amt = issue_fees d /\ c_super rc = false
+          /\ (0 < count is_any_issue d)%nat)
+    /\ (count is_debit d <= 1)%nat
+    (* requests issued outside super mode are paid for *)
+    /\ (c_super rc = false -> (0 < count is_any_issue d)%nat ->
+          In (EvDebit c (c_cons rc) (issue_fees d)) d)
+    /\ (c_super rc = true -> issue_fees d = 0 /\ count is_debit d = 0%nat)
+    (* the money: the consumer pays the fees issued into escrow, nothing else moves *)
+    /\ (forall a, bal (new_one cfg s c) a
+          = bal s a - (if eqb a (User (c_cons rc)) then issue_fees d else 0)
+                    + (if eqb a Escrow then issue_fees d else 0)).
+Proof.
+  intros HI Hdue. destruct (due_new_ctx _ _ _ HI Hdue) as (rc & Grc & _ & _).
+  exists rc. pose proof (new_one_log cfg s c rc Grc) as H. cbv zeta in H.
+  set (el := filter_providers s rc (c_provs rc)) in *.
+  destruct H as [((d & El & Hd) & Eb)|(Epos & sp & Hsp & El & Eb)].
+  - exists d. destruct (plain_list d Hd) as (P1 & P2 & P3). rewrite Forall_forall in Hd.
+    split; [exact Grc|]. split; [exact El|].
+    split; [intros r p cons f Hin; destruct (Hd _ Hin) as (_ & Hx); discriminate|].
+    split; [intros c' cons amt Hin; destruct (Hd _ Hin) as (Hx & _); discriminate|].
+    split; [lia|]. split; [intros _ Hx; lia|]. split; [intros _; split; assumption|].
+    intros a. unfold bal. rewrite Eb, P1. destruct (eqb a (User (c_cons rc))), (eqb a Escrow); lia.
+  - set (n := c_counter rc + 1) in *. set (provs := map fst el) in *.
+    set (ev := issue_evs sp c rc n 0 provs) in *.
+    assert (Hlen : (0 < length provs)%nat).
+    { unfold provs. rewrite map_length. unfold len in Epos. lia. }
+    destruct (issue_evs_counts sp c rc n 0 provs) as (C1 & C2). fold ev in C1, C2.
+    assert (Hiss : forall r p cons f, In (EvIssue r p cons f) ev ->
+               rid_ctx r = c /\ rid_batch r = n /\ cons = c_cons rc).
+    { intros r p cons f Hin. apply In_issue_evs in Hin. destruct Hin as (j & p' & E & _ & _).
+      injection E as -> _ -> _. repeat split. }
+    assert (Hnd : forall c' cons amt, ~ In (EvDebit c' cons amt) ev).
+    { intros c' cons amt Hin. apply In_issue_evs in Hin. destruct Hin as (j & p' & E & _). discriminate. }
+    destruct Hsp as [(Es & ->)|(Es & x & Et & ->)].
+    + exists (EvBatchStart c n (height s) (len provs) :: ev).
+      assert (Hfees : issue_fees (EvBatchStart c n (height s) (len provs) :: ev) = 0).
+      { rewrite issue_fees_cons. cbn [issue_fee]. unfold ev, provs, el.
+        rewrite issue_evs_fees, fee_sum_prices, Es. reflexivity. }
+      split; [exact Grc|]. split; [exact El|].
+      split; [intros r p cons f [E|Hin]; [discriminate|eauto]|].
+      split; [intros c' cons amt [E|Hin]; [discriminate|exfalso; eapply Hnd; eauto]|].
+      rewrite !count_cons, C1. cbn [is_debit is_any_issue].
+      split; [lia|]. split; [congruence|]. split; [intros _; split; [exact Hfees|reflexivity]|].
+      intros a. unfold bal. rewrite Eb, Hfees. destruct (eqb a (User (c_cons rc))), (eqb a Escrow); lia.
+    + sproj. pose proof (transfer_frame _ _ _ _ _ Et) as Hf.
+      exists (EvBatchStart c n (height s) (len provs) :: ev ++ [EvDebit c (c_cons rc) (sum_prices el)]).
+      assert (Hfees : issue_fees (EvBatchStart c n (height s) (len provs)
+                                   :: ev ++ [EvDebit c (c_cons rc) (sum_prices el)]) = sum_prices el).
+      { rewrite issue_fees_cons, issue_fees_app, issue_fees_cons. cbn [issue_fee issue_fees fold_right].
+        unfold ev, provs. rewrite issue_evs_fees.
+        assert (E : forall l, fold_right (fun p a => fee_of (emit (EvDebit c (c_cons rc) (sum_prices el)) x) rc p + a) 0 l
+                         = fold_right (fun p a => fee_of s rc p + a) 0 l).
+        { induction l as [|p t IH]; cbn [fold_right]; [reflexivity|].
+          rewrite IH, (fee_of_stable s) by (sproj; now rewrite Hf). reflexivity. }
+        rewrite E. unfold el. rewrite fee_sum_prices, Es. lia. }
+      split; [exact Grc|].
+      split; [rewrite El; cbn [app]; rewrite <- app_assoc; cbn [app]; now rewrite Hf|].
+      split.
+      { intros r p cons f [E|Hin]; [discriminate|]. apply in_app_or in Hin.
+        destruct Hin as [Hin|[E|[]]]; [eauto|discriminate]. }
+      split.
+      { intros c' cons amt [E|Hin]; [discriminate|]. apply in_app_or in Hin.
+        destruct Hin as [Hin|[E|[]]]; [exfalso; eapply Hnd; eauto|].
+        injection E as <- <- <-. rewrite Hfees. repeat split; try assumption.
+        rewrite count_cons, count_app, C2. cbn. lia. }
+      rewrite !count_cons, !count_app, C1. cbn [is_debit is_any_issue count filter length].
+      split; [lia|].
+      split; [intros _ _; right; apply in_or_app; right; rewrite Hfees; now left|].
+      split; [congruence|].
+      intros a. rewrite Hfees. unfold bal at 1. rewrite Eb. sproj. fold (bal x a).
+      rewrite (transfer_bal _ _ _ _ _ a Et). lia.
+Qed.
